@@ -461,8 +461,9 @@ def gen_chain(g, filters=0.0, roots=0.0, doc=None, small=False):
                 if r.random() < 0.5:
                     # blanks around the operator (Coq's FCS): `@.a > 1`, `@.a  >=1`, ...
                     ga, gb = r.choice([0, 1, 1, 2]), r.choice([0, 1, 1, 3])
-                    text += '[?(@' + itext + ' ' * ga + optext + ' ' * gb + lit + ')]'
-                    add_f((12, ispec, ga, oc, gb, [ord(ch) for ch in lit]))
+                    g0, g1 = r.choice([0, 0, 1, 2]), r.choice([0, 0, 1, 2])
+                    text += '[?(' + ' ' * g0 + '@' + itext + ' ' * ga + optext + ' ' * gb + lit + ' ' * g1 + ')]'
+                    add_f((12, ispec, g0, ga, oc, gb, g1, [ord(ch) for ch in lit]))
                 else:
                     text += '[?(@' + itext + optext + lit + ')]'
                     add_f((8, ispec, oc, [ord(ch) for ch in lit]))
@@ -476,14 +477,16 @@ def gen_chain(g, filters=0.0, roots=0.0, doc=None, small=False):
                 cur = [x for v in cur for x in chain_children(v) if keep(x)]
                 continue
             itext, ispec = gen_inner(r, r.choice(kids) if kids else None)
+            spaced = r.random() < 0.4
+            g0, gn, g1 = (r.choice([0, 1, 2]), r.choice([0, 0, 1, 2]), r.choice([0, 1, 1, 3])) if spaced else (0, 0, 0)
             if r.random() < 0.3:
-                # the negation: members from which the inner steps reach nothing
-                text += '[?(!@' + itext + ')]'
-                add_f((9, ispec))
+                # the negation: members from which the inner steps reach nothing (spaced: Coq's FES)
+                text += '[?(' + ' ' * g0 + '!' + ' ' * gn + '@' + itext + ' ' * g1 + ')]'
+                add_f((13, True, g0, gn, g1, ispec) if spaced else (9, ispec))
                 cur = [x for v in cur for x in chain_children(v) if not inner_reach(ispec, [x])]
                 continue
-            text += '[?(@' + itext + ')]'
-            add_f((7, ispec))
+            text += '[?(' + ' ' * g0 + '@' + itext + ' ' * g1 + ')]'
+            add_f((13, False, g0, 0, g1, ispec) if spaced else (7, ispec))
             cur = [x for v in cur for x in chain_children(v) if inner_reach(ispec, [x])]
             continue
         rec = r.random() < 0.25
@@ -637,7 +640,7 @@ class C01(EvalProp):
                     doc, text, spec, cur = gen_chain(g, filters=fl, roots=0.25 if r.random() < 0.5 else 0.0)
                 if cur or r.random() < 0.25:
                     break
-            has_filter = any(st[0] in (7, 8, 9, 10, 11, 12) for st in spec)      # C01_filter_retrieval: the text is Coq's fchain_path
+            has_filter = any(st[0] in (7, 8, 9, 10, 11, 12, 13) for st in spec)      # C01_filter_retrieval: the text is Coq's fchain_path
             nodollar = not has_filter and spec[0][0] != 4 and r.random() < 0.25
             if nodollar:
                 # C18_dollar_optional: the same path without its leading $ (a first dot name loses its dot, .* becomes *)
